@@ -167,9 +167,9 @@ Theorem vectorize_edge_entry order ts rs ea va k :
   match nth k (filter_edge ts rs ea) (0, 0, 0, 0, 0, 0)%nat with
   | (e, f, i0, i1, j0, j1) =>
     nth (co + k) (s_test_indices A) 0%nat = e /\ nth (co + k) (s_trial_indices A) 0%nat = f /\
-    nth (co + k) (s_test_offsets A) 0%Z = edge_offset order i0 i1 /\
-    nth (co + k) (s_trial_offsets A) 0%Z = edge_offset order j0 j1 /\
-    nth (co + k) (s_weights_offsets A) 0%Z = npts order 0 /\ nth (co + k) (s_nquad A) 0%Z = npts order 1
+    nth (co + k) (s_test_offsets A) 0%Z = u32 (edge_offset order i0 i1) /\
+    nth (co + k) (s_trial_offsets A) 0%Z = u32 (edge_offset order j0 j1) /\
+    nth (co + k) (s_weights_offsets A) 0%Z = u32 (npts order 0) /\ nth (co + k) (s_nquad A) 0%Z = u32 (npts order 1)
   end.
 Proof.
   intros A co Hk. unfold A, vectorize. cbn [s_test_indices s_trial_indices s_test_offsets s_trial_offsets
@@ -191,10 +191,10 @@ Theorem vectorize_vertex_entry order ts rs ea va k :
   match nth k (filter_vertex ts rs va) (0, 0, 0, 0)%nat with
   | (e, f, i, j) =>
     nth (co + k) (s_test_indices A) 0%nat = e /\ nth (co + k) (s_trial_indices A) 0%nat = f /\
-    nth (co + k) (s_test_offsets A) 0%Z = vertex_offset order i /\
-    nth (co + k) (s_trial_offsets A) 0%Z = vertex_offset order j /\
-    nth (co + k) (s_weights_offsets A) 0%Z = (npts order 0 + npts order 1)%Z /\
-    nth (co + k) (s_nquad A) 0%Z = npts order 2
+    nth (co + k) (s_test_offsets A) 0%Z = vertex_offset_u32 order i /\
+    nth (co + k) (s_trial_offsets A) 0%Z = vertex_offset_u32 order j /\
+    nth (co + k) (s_weights_offsets A) 0%Z = u32 (npts order 0 + npts order 1) /\
+    nth (co + k) (s_nquad A) 0%Z = u32 (npts order 2)
   end.
 Proof.
   intros A co Hk. unfold A, vectorize. cbn [s_test_indices s_trial_indices s_test_offsets s_trial_offsets
@@ -228,3 +228,31 @@ Proof.
     lia.
   - apply NoDup_filter, seq_NoDup.
 Qed.
+
+(* the uint32 reductions are the identity for every accepted order (1..30) -- and would not be with 16 bits *)
+Theorem offsets_fit_u32 order : (1 <= order <= 30)%Z ->
+  (forall i j, (i < 3)%nat -> (j < 3)%nat -> i <> j -> u32 (edge_offset order i j) = edge_offset order i j) /\
+  (forall k, (k < 3)%nat -> vertex_offset_u32 order k = vertex_offset order k) /\
+  u32 (npts order 0) = npts order 0 /\ u32 (npts order 1) = npts order 1 /\ u32 (npts order 2) = npts order 2 /\
+  u32 (npts order 0 + npts order 1) = (npts order 0 + npts order 1)%Z.
+Proof.
+  intros Ho. assert (B : (1 <= order ^ 4 <= 30 ^ 4)%Z).
+  { split; [apply (Z.pow_le_mono_l 1 order 4); lia|apply Z.pow_le_mono_l; lia]. }
+  destruct region_counts as (_ & _ & _ & f6 & f5 & f2).
+  assert (N0 : npts order 0 = (6 * order ^ 4)%Z) by (unfold npts; cbn [count_factor_of]; rewrite f6; reflexivity).
+  assert (N1 : npts order 1 = (5 * order ^ 4)%Z) by (unfold npts; cbn [count_factor_of]; rewrite f5; reflexivity).
+  assert (N2 : npts order 2 = (2 * order ^ 4)%Z) by (unfold npts; cbn [count_factor_of]; rewrite f2; reflexivity).
+  cbn in B. unfold vertex_offset_u32, u32, vertex_offset, edge_offset. rewrite N0, N1, N2.
+  split; [|split; [|repeat split]].
+  - intros i j Hi Hj Hn. destruct (edge_order_index i j Hi Hj Hn) as [R _]. apply Z.mod_small. nia.
+  - intros k Hk. rewrite (Z.mod_small (2 * order ^ 4 * Z.of_nat k)) by nia. apply Z.mod_small. nia.
+  - apply Z.mod_small. nia.
+  - apply Z.mod_small. nia.
+  - apply Z.mod_small. nia.
+  - apply Z.mod_small. nia.
+Qed.
+
+Theorem offsets_do_not_fit_u16 :
+  exists order i j, (1 <= order <= 30)%Z /\ (i < 3)%nat /\ (j < 3)%nat /\ i <> j /\
+    (edge_offset order i j mod 2 ^ 16 <> edge_offset order i j)%Z.
+Proof. exists 7%Z, 2%nat, 0%nat. repeat split; try lia. vm_compute. discriminate. Qed.
